@@ -22,12 +22,26 @@ RULES["stop"] = ("one session = one seeded plan (an Alg subclass or App on a sma
                  "twin canonical run; non-trivial = at least one library call followed by an oracle evaluation; distinct = distinct "
                  "fingerprints of (kind, solver/app, field, n, m, max_iter, g, start, options, progress bar, schedule style, fault "
                  "kinds, compressed action sequence)")
+RULES["rng"] = ("one session = one seeded history of process-global numpy RNG users (seed, random, standard_normal leaving a cached "
+                "gaussian, shuffle, set_state at boundary positions, sigpy.util.randn, a MaxEig run) interleaved with poisson() calls "
+                "drawn from a small pool of argument sets (shapes 16..64, accel, calib even/odd/large, tol incl. unreachable, "
+                "crop_corner, dtype, max_attempts, seed int/None), including repeats of earlier argument sets; run in JIT mode and in "
+                "interpreter mode (NUMBA_DISABLE_JIT=1); non-trivial = at least one successful poisson call judged; distinct = distinct "
+                "fingerprints of (config, compressed action sequence, argument-set classes)")
 SIMTIME_UNIT = {
+    "rng": "history actions (no clock in this world; logical steps)",
     "stop": "simulated seconds of the App.run clock (sum of planned clock increments over all reads)",
     "pg": "solver updates (no clock in this world; logical steps)",
     "cg": "solver updates (this world has no clock; logical steps are reported)",
 }
 ASSUMPTIONS = {
+    "rng": [
+        "state comparison is exact over numpy's full get_state() tuple",
+        "on the error path (ValueError) the state comparison is a probe only: the statement speaks of generating a mask",
+        "crop check uses the function's own calibration-adjusted radius; the stricter geometric ellipse is a probe",
+        "termination is decided by a deterministic call budget on the inner sampler (2500 calls), not by wall-clock",
+        "cross-interpreter reproducibility is covered by tools/selftest_determinism.py (mask digests are part of the trace)",
+    ],
     "stop": [
         "an early stop is judged by continuing the same object for the remaining max_iter - iter updates; the solution must stay within 1e-12*scale",
         "the early-stop clause is applied to algorithms that have a tol parameter (the property conditions it on tol=0); SDMM and fixed-budget algorithms are checked for S1-S4 only",
